@@ -309,6 +309,15 @@ package common
 //@   -- which is positive; every ordinary input is an output that exists in the ledger and has the transaction's asset.
 //@   -- The clauses describe the transaction AS PASSED IN (old state): Validate writes only the caches ver.hash / ver.pmbytes / ver.validatedSize
 //@   -- (and hash caches of store-returned transactions in validateNodeRemove, whose frame cannot be named), so old == new for every field used.
+//@   -- proof guidance (checked): the facts are transferred to the entry state once, right after the callee that establishes them; the postconditions
+//@   -- then combine them at every return
+//@   hint after validateInputs [h-c01-ord] callerr == nil && txType != TransactionTypeMint && txType != TransactionTypeDeposit ==> old(OrdInputs(&ver.Transaction))
+//@   hint after validateInputs [h-c01-asset] callerr == nil && txType != TransactionTypeMint && txType != TransactionTypeDeposit ==>
+//@       old(forall k int :: {ver.Inputs[k]} 0 <= k && k < len(ver.Inputs) ==> InLedger(store, ver.Inputs[k]) && InputAssetIs(store, ver.Inputs[k], ver.Asset))
+//@   hint after validateInputs [h-c01-sum] callerr == nil && txType != TransactionTypeMint && txType != TransactionTypeDeposit ==>
+//@       val(callresult1) == old(SumIn(store, &ver.Transaction, len(ver.Inputs)))
+//@   hint after validateOutputs [h-c01-positive] callerr == nil ==> old(forall a int :: 0 <= a && a < len(ver.Outputs) ==> val(ver.Outputs[a].Amount) > 0)
+//@   hint after validateOutputs [h-c01-out] callerr == nil ==> old(SumOut(&ver.Transaction, len(ver.Outputs))) == val(inputAmount)
 //@   ensures [c01-nonempty] @C01 err == nil ==> old(len(ver.Inputs) >= 1 && len(ver.Outputs) >= 1)
 //@   ensures [c01-shape] @C01 err == nil ==> old(forall j int :: 0 <= j && j < len(ver.Inputs) ==> OrdInput(ver.Inputs[j]) ||
 //@       (len(ver.Inputs) == 1 && len(ver.Inputs[0].Genesis) == 0 && (ver.Inputs[0].Mint != nil || ver.Inputs[0].Deposit != nil)))
